@@ -88,6 +88,41 @@ func evalC08(w *fw.W, s, _ string) {
 	}
 }
 
+// evalC08Membership: the real blacklist test must agree with plain table membership for EVERY class
+// string (a hashed / packed look-up that accepts a non-member shows here).
+func evalC08Membership(w *fw.W, fp, _ string) {
+	if fp == "" {
+		return
+	}
+	want := c08Table["0"+asciiUpper(fp)] == 'F'
+	got := lib.VerifBlacklisted(fp)
+	w.Traces(1)
+	if got != want {
+		w.Fail("blacklist-membership", fmt.Sprintf("the blacklist test says %v for fingerprint %q, the shipped table says %v", got, fp, want))
+		return
+	}
+	if want {
+		w.NonTrivial()
+		w.Outcome(fw.Hash(fp))
+	}
+}
+
+var c08Table map[string]byte
+
+func classSymbols() []string {
+	var out []string
+	seen := map[byte]bool{}
+	for i := 0; i < len(sqlClassAlphabet); i++ {
+		c := sqlClassAlphabet[i]
+		if c == 'F' || seen[c] {
+			continue
+		}
+		seen[c] = true
+		out = append(out, string([]byte{c}))
+	}
+	return out
+}
+
 func init() {
 	var cuts []string
 	fw.Register(&fw.Check{
@@ -99,9 +134,12 @@ func init() {
 		Assumptions: []string{"per-context results come from the build-tagged accessor running sqliFingerprint+checkFingerprint on a fresh state"},
 		Setup: func(w *fw.W) error {
 			cuts = alpha.Cuts(fixtures(), "'\"`", 4096)
+			c08Table = lib.VerifSQLKeywords()
 			return nil
 		},
 		Phases: []fw.Phase{
+			{Name: "blacklist-membership", Space: "every class string of length 1..4 (quick) / 1..5 (thorough) over the 26 class characters: real blacklist test == membership in the shipped table", Share: 2,
+				Run: func(w *fw.W) { w.Trie(classSymbols(), 1, w.Pick(4, 5)) }, Eval: evalC08Membership},
 			{Name: "trie-S1-bytes", Space: "S1^<=4", Share: 3, Run: func(w *fw.W) { w.Trie(alpha.S1, 0, 4) }, Eval: evalC08},
 			{Name: "trie-S2-fragments", Space: "S2^<=3 (quick) / <=4 (thorough)", Share: 3, Run: func(w *fw.W) { w.Trie(alpha.S2, 1, w.Pick(3, 4)) }, Eval: evalC08},
 			{Name: "trie-S3-tokens", Space: "S3^<=4 (quick) / <=5 (thorough)", Share: 4, Run: func(w *fw.W) { w.Trie(alpha.S3, 1, w.Pick(4, 5)) }, Eval: evalC08},
